@@ -44,7 +44,8 @@ BOARD_ROWS = {0: (0, 4), 1: (0, 5), 2: (0, 6), 3: (0, 7), 4: (1, 7),
 TRIAD_ETH = [(0, 0), (4, 8), (8, 4)]
 
 FAULTS = ["req_loss", "rep_loss", "rep_delay", "rep_dup", "retryable_rc",
-          "fatal_rc", "partition", "transient_busy", "rep_batch"]
+          "fatal_rc", "partition", "transient_busy", "rep_batch",
+          "spurious_wakeup"]
 
 
 def plan(tier, prop):
